@@ -74,5 +74,6 @@ def main(chk, prop, spec, tier, seed):
                 extra_viol.append((path, v))
     chk.log(f"[C16] Miri: {len(list(miri_seeds))} schedule seeds, {miri_cases} cases")
     cov = {"loom": loom, "miri_seeds": len(list(miri_seeds)), "miri_cases": miri_cases,
+           "not_exhaustive_parts": "the free-running 16-thread passes (alphabet in rotated orders, fast-path hammer) and the Miri schedule seeds sample schedules; they check the independence premise and are not counted as exhaustive. Exhaustive parts: iterator shapes/addresses and call histories over the stated alphabet, loom call-level interleavings.",
            "schedule_granularity": "call level (the crate has no synchronisation operations); finer interleavings by independence, premise checked by 16 free-running threads and Miri's data-race detector"}
     chk.finish(prop, spec, tier, seed, sha, results, known, t0, extra_cov=cov, extra_viol=extra_viol)
